@@ -79,6 +79,18 @@ pub fn server(lib: &HashMap<String, String>, ext: &str) -> Server {
     })
 }
 
+/// like `server`, but with production key generation (random 8-character keys) instead of the
+/// test-suite mode in which every new key of one action is "number of notes + 1"
+pub fn server_prod(lib: &HashMap<String, String>, ext: &str) -> Server {
+    Server::new(ServerConfig {
+        base_path: BASE.into(),
+        state: lib.clone(),
+        sequential_ids: Some(false),
+        configuration: config(ext),
+        lsp_client: LspClient::Unknown,
+    })
+}
+
 pub fn fmt_params(key: &str) -> DocumentFormattingParams {
     DocumentFormattingParams {
         text_document: TextDocumentIdentifier { uri: uri(key) },
